@@ -17,7 +17,7 @@
     average is the entrywise mean of the path-sum matrices; the bags are, as a set of sets,
     the groups of tips joined by branches shorter than the threshold. *)
 From Coq Require Import String ZArith QArith Bool Arith List.
-From GT Require Import Base.Sexp Base.UTree Base.Codec Spec.Obs Spec.Cut Model.Reroot Model.Matrix Judge.Common.
+From GT Require Import Base.Sexp Base.UTree Base.Codec Spec.Obs Spec.Cut Model.Reroot Model.Matrix Model.Consensus Judge.Common.
 Import ListNotations.
 Local Close Scope Q_scope.
 Local Open Scope string_scope.
@@ -60,6 +60,13 @@ Definition qabs (a : Q) : Q := if Qle_bool 0 a then a else (- a)%Q.
 Definition qclose (a b : Q) : bool :=
   Qle_bool (qabs (a - b) * (1125899906842624 # 1))%Q (qabs a + qabs b)%Q.
 Definition qmat_close (a b : list (list Q)) : bool := list_eqb (list_eqb qclose) a b.
+
+(** the average, exactly: the sums of the generated (dyadic) cells are exact in binary64, and the
+    code makes ONE rounded division per cell: the float64 it returns must be the binary64
+    nearest (ties to even) to the rational mean, [Model/Consensus.round53]; [a] is the
+    rational mean, [b] the exact value of Go's float64 *)
+Definition qrounded (a b : Q) : bool := qeqb (round53 a) b.
+Definition qmat_rounded (a b : list (list Q)) : bool := list_eqb (list_eqb qrounded) a b.
 
 Definition spec_matrix (m : metric) (t : utree) : option (list (list Q)) :=
   omap (omap (fun x : option Q => x)) (dist_matrix (wspec m) t).
@@ -166,8 +173,8 @@ Definition avg_oracle (cli : bool) (m : metric) (ts : list utree) (names : list 
          | None => Some "oracle: a pair of tips has no path (malformed input)"
          | Some ms =>
            let mean := mdiv (length ts) (msum ms) in
-           if (if cli then qmat_cli g mean else qmat_close g mean) then None
-           else Some ("a cell is not the mean of the path sums; expected " ++ show_matrix mean)
+           if (if cli then qmat_cli g mean else qmat_rounded mean g) then None
+           else Some ("a cell is not the (correctly rounded) mean of the path sums; exact means " ++ show_matrix mean)
          end
   end.
 
@@ -208,7 +215,7 @@ Definition judge_avg (c o : sexp) : verdict :=
             | Some msg => VOracle msg
             | None =>
               if negb (list_eqb String.eqb mn names) then VCorr ("model names: " ++ concat_with "," mn)
-              else if negb (if cli then qmat_cli mm g else qmat_close mm g) then VCorr ("model matrix: " ++ show_matrix mm)
+              else if negb (if cli then qmat_cli mm g else qmat_rounded mm g) then VCorr ("model matrix (before rounding): " ++ show_matrix mm)
               else VOk (Nat.leb 2 (length ts))
                        ("avg:" ++ (match m with MBrlen => "brlen" | MBoots => "boot" | MNone => "none" end)
                         ++ (if dom && same then "" else ":outside"))
